@@ -221,9 +221,13 @@ macro_rules! c01_strict_ok {
                 6 => { let (v, f) = a.overflowing_neg(); $crate::nd::assume(!f); assert!(a.strict_neg() == v); }
                 7 => { let (v, f) = a.overflowing_abs(); $crate::nd::assume(!f); assert!(a.strict_abs() == v); }
                 8 => { let (v, f) = a.overflowing_add_unsigned(ubb); $crate::nd::assume(!f); assert!(a.strict_add_unsigned(ubb) == v); }
-                _ => { $crate::nd::assume(sel == 9); let (v, f) = a.overflowing_sub_unsigned(ubb); $crate::nd::assume(!f); assert!(a.strict_sub_unsigned(ubb) == v); }
+                9 => { let (v, f) = a.overflowing_sub_unsigned(ubb); $crate::nd::assume(!f); assert!(a.strict_sub_unsigned(ubb) == v); }
+                10 => { let (v, f) = ua.overflowing_add(ubb); $crate::nd::assume(!f); assert!(unsafe { ua.unchecked_add(ubb) } == v); }
+                11 => { let (v, f) = ua.overflowing_sub(ubb); $crate::nd::assume(!f); assert!(unsafe { ua.unchecked_sub(ubb) } == v); }
+                12 => { let (v, f) = a.overflowing_add(b); $crate::nd::assume(!f); assert!(unsafe { a.unchecked_add(b) } == v); }
+                _ => { $crate::nd::assume(sel == 13); let (v, f) = a.overflowing_sub(b); $crate::nd::assume(!f); assert!(unsafe { a.unchecked_sub(b) } == v); }
             }
-            $crate::reach!(sel == 0, "s0"); $crate::reach!(sel == 3, "s3"); $crate::reach!(sel == 7, "s7"); $crate::reach!(sel == 9, "s9");
+            $crate::reach!(sel == 0, "s0"); $crate::reach!(sel == 3, "s3"); $crate::reach!(sel == 7, "s7"); $crate::reach!(sel == 9, "s9"); $crate::reach!(sel == 13, "s13");
         });
     };
 }
